@@ -118,7 +118,15 @@ def main_transitions(rep, f, c, sink):
     if len(heads) != 1:
         rep.undecidable('C10-D1', fn, 'expected one dispatch loop', site, c)
         return None
-    offl = [i for i, l in enumerate(b.locals) if l.get('name') == 'offset']
+    # the offset counter: the usize local that is 0 before the dispatch loop and is compared with src.len() inside it
+    offl = []
+    r0 = Resolver(b)
+    for i, l in enumerate(b.locals):
+        if l['ty'] == 'usize' and i > b.arg_count and len(b.defs.get(i, [])) >= 2:
+            inits = [d for d in b.defs.get(i, []) if d[2] == 'assign' and r0.rvalue(d[3]['rv']) == C(0) and d[0] not in b.reach_from(heads)]
+            cmp_ = any('switch' in blk['t'] and (lambda e: e[0] == 'bin' and e[1] in ('Ge', 'Lt') and e[2] == ('loc', i) and e[3] == ('len', SRC))(Resolver(b).operand(blk['t']['switch'])) for blk in b.blocks)
+            if inits and cmp_:
+                offl.append(i)
     if len(offl) != 1:
         rep.undecidable('C10-D1', fn, 'offset local not found', site, c)
         return None
